@@ -248,6 +248,9 @@ func (w *world) neighbor(n sx.Node) *oc.Neighbor {
 	nc.Config.PeerAs = uint32(n.At(2).Uint())
 	nc.Transport.Config.PassiveMode = true
 	nc.AfiSafis = oc.AfiSafis{{Config: oc.AfiSafiConfig{AfiSafiName: oc.AFI_SAFI_TYPE_IPV4_UNICAST, Enabled: true}}}
+	if ok, _ := hasOpt(n, 3, "v6"); ok {
+		nc.AfiSafis = append(nc.AfiSafis, oc.AfiSafi{Config: oc.AfiSafiConfig{AfiSafiName: oc.AFI_SAFI_TYPE_IPV6_UNICAST, Enabled: true}})
+	}
 	if ok, _ := hasOpt(n, 3, "rr"); ok {
 		nc.RouteReflector.Config.RouteReflectorClient = true
 		nc.RouteReflector.Config.RouteReflectorClusterId = v4("9.9.9.9")
@@ -274,7 +277,9 @@ func (w *world) neighbor(n sx.Node) *oc.Neighbor {
 		fmt.Sscan(v, &k)
 		nc.GracefulRestart.Config.Enabled = true
 		nc.GracefulRestart.Config.RestartTime = uint16(k)
-		nc.AfiSafis[0].MpGracefulRestart.Config.Enabled = true
+		for i := range nc.AfiSafis {
+			nc.AfiSafis[i].MpGracefulRestart.Config.Enabled = true
+		}
 	}
 	if ok, v := hasOpt(n, 3, "llgr"); ok {
 		var k int
@@ -393,6 +398,9 @@ func (w *world) mkOpen(p *fakePeer, n sx.Node) (*bgp.BGPMessage, uint16) {
 		hold = uint16(k)
 	}
 	caps := []bgp.ParameterCapabilityInterface{bgp.NewCapRouteRefresh(), bgp.NewCapMultiProtocol(bgp.RF_IPv4_UC), bgp.NewCapFourOctetASNumber(p.as)}
+	if ok, _ := hasOpt(n, 2, "v6"); ok {
+		caps = append(caps, bgp.NewCapMultiProtocol(bgp.RF_IPv6_UC))
+	}
 	p.opt = &bgp.MarshallingOption{AddPath: map[bgp.Family]bgp.BGPAddPathMode{}}
 	sendOpt := &bgp.MarshallingOption{AddPath: map[bgp.Family]bgp.BGPAddPathMode{}}
 	if ok, v := hasOpt(n, 2, "ap"); ok { // ap=<mode 1 recv,2 send,3 both> as announced by the fake peer
@@ -413,8 +421,18 @@ func (w *world) mkOpen(p *fakePeer, n sx.Node) (*bgp.BGPMessage, uint16) {
 	if ok, v := hasOpt(n, 2, "gr"); ok { // gr=<restart time>[r][n]
 		var k int
 		fmt.Sscan(strings.TrimRight(v, "rn"), &k)
-		caps = append(caps, bgp.NewCapGracefulRestart(strings.Contains(v, "r"), strings.Contains(v, "n"), uint16(k),
-			[]*bgp.CapGracefulRestartTuple{bgp.NewCapGracefulRestartTuple(bgp.RF_IPv4_UC, true)}))
+		tuples := []*bgp.CapGracefulRestartTuple{}
+		_, fams := hasOpt(n, 2, "grfam") // grfam=4 | 6 | 46 ; default: IPv4 unicast only
+		if fams == "" {
+			fams = "4"
+		}
+		if strings.Contains(fams, "4") {
+			tuples = append(tuples, bgp.NewCapGracefulRestartTuple(bgp.RF_IPv4_UC, true))
+		}
+		if strings.Contains(fams, "6") {
+			tuples = append(tuples, bgp.NewCapGracefulRestartTuple(bgp.RF_IPv6_UC, true))
+		}
+		caps = append(caps, bgp.NewCapGracefulRestart(strings.Contains(v, "r"), strings.Contains(v, "n"), uint16(k), tuples))
 	}
 	if ok, v := hasOpt(n, 2, "llgr"); ok {
 		var k int
@@ -566,6 +584,22 @@ func (w *world) obs() {
 	})
 	sort.Strings(rib)
 	parts = append(parts, "(rib "+strings.Join(rib, " ")+")")
+	var rib6 []string
+	w.s.ListPath(apiutil.ListPathRequest{TableType: api.TableType_TABLE_TYPE_GLOBAL, Family: bgp.RF_IPv6_UC}, func(prefix bgp.NLRI, paths []*apiutil.Path) {
+		var ps []string
+		for _, p := range paths {
+			src := "local"
+			if p.PeerAddress.IsValid() {
+				src = p.PeerAddress.String()
+			}
+			ps = append(ps, fmt.Sprintf("(%s %s)", src, sx.B(p.Stale)))
+		}
+		rib6 = append(rib6, "("+prefix.String()+" "+strings.Join(ps, " ")+")")
+	})
+	if len(rib6) > 0 {
+		sort.Strings(rib6)
+		parts = append(parts, "(rib6 "+strings.Join(rib6, " ")+")")
+	}
 	// adj-rib-in per peer
 	for _, k := range names {
 		p := w.peers[k]
@@ -608,6 +642,27 @@ func (w *world) step(n sx.Node) {
 		}
 	case "upd":
 		w.upd(n)
+	case "upd6":
+		// (upd6 a (a 2001:db8:1::/48) | (w 2001:db8:1::/48))
+		if p := w.peers[n.At(1).Atom]; p != nil && p.conn != nil {
+			for _, r := range n.List[2:] {
+				nl, _ := bgp.NewIPAddrPrefix(netip.MustParsePrefix(r.At(1).Atom))
+				var m *bgp.BGPMessage
+				if r.At(0).Atom == "w" {
+					mp, _ := bgp.NewPathAttributeMpUnreachNLRI(bgp.RF_IPv6_UC, []bgp.PathNLRI{{NLRI: nl}})
+					m = bgp.NewBGPUpdateMessage(nil, []bgp.PathAttributeInterface{mp}, nil)
+				} else {
+					mp, _ := bgp.NewPathAttributeMpReachNLRI(bgp.RF_IPv6_UC, []bgp.PathNLRI{{NLRI: nl}}, netip.MustParseAddr("2001:db8::1"))
+					m = bgp.NewBGPUpdateMessage(nil, []bgp.PathAttributeInterface{bgp.NewPathAttributeOrigin(0),
+						bgp.NewPathAttributeAsPath([]bgp.AsPathParamInterface{bgp.NewAs4PathParam(bgp.BGP_ASPATH_ATTR_TYPE_SEQ, []uint32{p.as})}), mp}, nil)
+				}
+				p.send(m, p.sendOpt)
+			}
+		}
+	case "eor6":
+		if p := w.peers[n.At(1).Atom]; p != nil && p.conn != nil {
+			p.send(bgp.NewEndOfRib(bgp.RF_IPv6_UC), p.sendOpt)
+		}
 	case "eor":
 		if p := w.peers[n.At(1).Atom]; p != nil && p.conn != nil {
 			p.send(bgp.NewEndOfRib(bgp.RF_IPv4_UC), p.sendOpt)
